@@ -33,11 +33,12 @@ def _norm(x):
     return x
 
 
-def nonascii_answer(item):
+def u180e_answer(item):
+    """an answer containing U+180E: white space in the Unicode 5.2 tables of Python 2.7, not in those of 3.x"""
     if item[0] == "interactive":
-        return any(ord(c) > 127 for a in item[3] for c in a)
+        return any("\u180e" in a for a in item[3])
     if item[0] == "cli":
-        return any(ord(c) > 127 for a in (item[2] or []) for c in a)
+        return any("\u180e" in a for a in (item[2] or []))
     return False
 
 
@@ -75,8 +76,8 @@ def float_syntax_item(item):
 
 def _diff_failure(item, want, got, pyver):
     key = None
-    if pyver.startswith("2.") and nonascii_answer(item):
-        key = "py2.interactive.non-ascii-answer"
+    if pyver.startswith("2.") and u180e_answer(item):
+        key = "py2.interactive.u180e-white-space"
     if float_syntax_item(item):
         key = "rh.score-syntax-of-float"
     if isinstance(want, dict) and isinstance(got, dict):
@@ -90,7 +91,9 @@ def _diff_failure(item, want, got, pyver):
 
 CHECKS = {"item": check_item}
 
-WITNESSES = [["interactive", 2, False, ["\u00a0n", "n", "l", "n", "c", "c", "c"]],
+WITNESSES = [["interactive", 3.1, False, ["\u180en", "l", "n", "n", "u", "h", "h", "h"]],
+             ["interactive", 3.1, False, ["\u00a0n", "l", "n", "n", "u", "h", "h", "h"]],
+             ["interactive", 3.1, False, ["\x1cn\x1f", "l", "n", "n", "u", "h", "h", "h"]],
              ["interactive", 4.0, True, ["n", "l", "n", "n", "n", "h", "h", "h", "h", "h", "n"] + [""] * 17 + ["\u0131", "", "", "", ""]],
              ["rh", "2", "1_0.0/AV:N/AC:L/Au:N/C:C/I:C/A:C"],
              ["rh", "3", "\U0001FBF9.8/CVSS:3.1/AV:N/AC:L/PR:N/UI:N/S:U/C:H/I:H/A:H"]]
@@ -236,7 +239,7 @@ def run(tier, t0):
             # report the smallest differing item per (interpreter, item kind)
             smallest = {}
             for it, w, g in bad:
-                k = (it[0], nonascii_answer(it), float_syntax_item(it))
+                k = (it[0], u180e_answer(it), float_syntax_item(it))
                 if k not in smallest or len(json.dumps(it)) < len(json.dumps(smallest[k][0])):
                     smallest[k] = (it, w, g)
             for it, w, g in smallest.values():
